@@ -155,6 +155,14 @@ theorem splitMut_body (n k i : Nat) (hk : k ≤ n) :
 
 /-! ### The slice reinterpretations of src/lib.rs (`len` = length of the argument slice, passed as `K`) -/
 
+/-- `as_slice` / `as_mut_slice`: one view of exactly the `N` elements at the array's own address, made from the receiver
+    reference itself (`self as *const Self` / `self as *mut Self`), writable only through the `&mut` receiver -/
+theorem asSlice_body (n k i : Nat) :
+    runViews false SeqBody.asSlice ⟨n, k, i⟩ = .views [⟨0, n, false⟩] ∧
+    runViews true SeqBody.asMutSlice ⟨n, k, i⟩ = .views [⟨0, n, true⟩] := by
+  constructor <;>
+    simp [runViews, SeqBody.asSlice, SeqBody.asMutSlice, vexec, vstep, lookupP, lookupV, lookupVs, LX.eval, noAlias]
+
 /-- `from_slice`: panics unless `len = N`; then one shared view of exactly the slice, at its address -/
 theorem fromSlice_body (n len i : Nat) :
     runViews false SeqBody.fromSlice ⟨n, len, i⟩ = if len ≠ n then .panic else .views [⟨0, n, false⟩] := by
